@@ -1,31 +1,105 @@
 (* Properties/C11.v -- stream parsing is independent of TCP segmentation (HTTP, ONC-RPC over TCP).
-   Pins statements only. Parser-level statements for HTTP are in Properties/C11http.v. *)
+   Pins statements only. Parser-level statements for HTTP are in Properties/C11http.v.
+
+   proto::repl keeps the bytes of a TCP flow while its protocol is unknown (at most
+   PENDING_MAX = 64) and starts the handler on the whole stream so far in the segment that
+   completes a signature.  [proto_tbl_ok E] is the per-table obligation, decided by
+   computation on the dumped matcher: the table is structurally sane and a stream whose first
+   SIG_SPAN = 28 bytes complete no signature never completes one -- so the bytes of a flow
+   are all in the buffer when it is identified (C11_current_table: it holds of the current
+   tables).  The statements below hold for ANY list of segments: the former hypothesis "the
+   first segment completes the signature" (known class short_first_segment) is gone. *)
 From MS Require Import Proto Spec.AppView Spec.C11 Spec.EnvOk Spec.C11http Instance Proofs.C11 Proofs.C11Witness.
 
-(* ---- ONC-RPC ---- a flow whose first segment completes the RPC/TCP signature: every segment,
-   up to and including the one that completes the first message, is answered with
+Theorem C11_current_table : proto_tbl_ok the_env = true.
+Proof. exact current_proto_tbl_ok. Qed.
+
+(* ---- the identifying segment ---- for every table, whatever the cuts of the leading bytes:
+   if the bytes before segment d complete no signature (and fit the buffer) and d completes
+   one, the segments before d get a bare ACK and, from d on, the flow is the flow in which
+   all these bytes came in ONE segment. *)
+Theorem C11_stream_join :
+  forall E clk ci, smack_ok (e_proto_tbl E) = true -> sm_rows (e_proto_tbl E) <= TWO24 ->
+    0 < sm_rows (e_proto_tbl E) -> 0 < sm_match_limit (e_proto_tbl E) ->
+  forall pre d rest i,
+    lenN (concat pre) <= PENDING_MAX ->
+    tcp_first_id E (concat pre) = None -> tcp_first_id E (concat pre ++ d) = Some i ->
+    tcp_stream E clk ci tcb_new (pre ++ d :: rest) =
+    do outs <- tcp_stream E clk ci tcb_new ((concat pre ++ d) :: rest);
+    Ok (quiet (length pre) ++ outs).
+Proof. exact stream_join. Qed.
+
+(* a stream that is identified is identified in one of its segments, within its first
+   SIG_SPAN bytes (so the buffer bound is never hit before) *)
+Theorem C11_identified_in_a_segment :
+  forall E segs i, proto_tbl_ok E = true -> bytes_ok (concat segs) = true ->
+    tcp_first_id E (concat segs) = Some i ->
+    exists pre d rest, segs = pre ++ d :: rest /\
+      tcp_first_id E (concat pre) = None /\ tcp_first_id E (concat pre ++ d) = Some i /\
+      (length (concat pre) < SIG_SPAN)%nat.
+Proof. exact ident_split. Qed.
+
+(* ---- ONC-RPC ---- a flow whose stream is identified as RPC/TCP, cut in ANY way: every
+   segment, up to and including the one that completes the first message, is answered with
    rpc_expected(stream prefix ending with that segment) -- a function of the byte stream alone
-   (None = bare ACK) -- after which the flow starts afresh. Any number of cuts. *)
+   (None = bare ACK) -- after which the flow starts afresh. *)
 Theorem C11_rpc_stream :
+  forall E clk ci ip port segs,
+    proto_tbl_ok E = true ->
+    ci_ip_dst ci = Some ip -> ci_port_dst ci = Some port ->
+    bytes_ok (concat segs) = true -> tcp_first_id E (concat segs) = Some PROTO_RPC_TCP ->
+    tcp_stream E clk ci tcb_new segs = Ok (rpc_stream_ref ip port [] segs).
+Proof. exact rpc_stream_any. Qed.
+
+(* the same when the first segment completes the signature, for every table *)
+Theorem C11_rpc_stream_first :
   forall E clk ci ip port s rest,
     ci_ip_dst ci = Some ip -> ci_port_dst ci = Some port ->
     tcp_first_id E s = Some PROTO_RPC_TCP ->
     tcp_stream E clk ci tcb_new (s :: rest) = Ok (rpc_stream_ref ip port [] (s :: rest)).
 Proof. exact rpc_stream_segmentation. Qed.
 
-(* ---- HTTP ---- a flow whose first segment completes a "VERB /" signature is the fold of the
-   HTTP responder over its segments ... *)
+(* ---- HTTP ---- a flow whose stream is identified as HTTP, cut in ANY way: the segments
+   before the one that completes the "VERB /" signature get a bare ACK; from that segment on
+   the flow is the fold of the HTTP responder, started on the whole stream so far ... *)
 Theorem C11_http_stream :
+  forall E clk ci segs,
+    proto_tbl_ok E = true ->
+    bytes_ok (concat segs) = true -> tcp_first_id E (concat segs) = Some PROTO_HTTP ->
+    exists pre d rest, segs = pre ++ d :: rest /\
+      tcp_first_id E (concat pre) = None /\ tcp_first_id E (concat pre ++ d) = Some PROTO_HTTP /\
+      (length (concat pre) < SIG_SPAN)%nat /\
+      tcp_stream E clk ci tcb_new segs =
+      do outs <- http_outs E clk http_new ((concat pre ++ d) :: rest); Ok (quiet (length pre) ++ outs).
+Proof. exact http_stream_any. Qed.
+
+Theorem C11_http_stream_first :
   forall E clk ci d rest,
     tcp_first_id E d = Some PROTO_HTTP ->
     tcp_stream E clk ci tcb_new (d :: rest) = http_outs E clk http_new (d :: rest).
 Proof. exact http_stream. Qed.
 
-(* ... and for every list of segments: there is the list l of answers of ONE whole-buffer parse of
-   each stream prefix at a segment boundary (a function of the byte stream and the cut points only
-   through the prefixes), the responder does not get stuck, and every segment before the first
-   "true" of l gets a bare ACK while that segment carries the 401 response. *)
+(* ... and: there is the list l of answers of ONE whole-buffer parse of each stream prefix at
+   a segment boundary from the identifying segment on (a function of the byte stream, and of
+   the cut points only through these prefixes), the responder does not get stuck, every
+   segment before the first "true" of l gets a bare ACK while that segment carries the 401
+   response. *)
 Theorem C11_http_stream_segmentation :
+  forall E clk ci segs,
+    proto_tbl_ok E = true -> smack_ok (e_http_tbl E) = true -> http_tbl_ok (e_http_tbl E) = true ->
+    bytes_ok (concat segs) = true -> tcp_first_id E (concat segs) = Some PROTO_HTTP ->
+    exists pre d rest l outs, segs = pre ++ d :: rest /\
+      tcp_first_id E (concat pre) = None /\ tcp_first_id E (concat pre ++ d) = Some PROTO_HTTP /\
+      (length (concat pre) < SIG_SPAN)%nat /\
+      Forall2 (fun upto a => http_answers_at (e_http_tbl E) http_new upto = Ok a)
+              (prefixes_at (concat pre) (d :: rest)) l /\
+      tcp_stream E clk ci tcb_new segs = Ok (quiet (length pre) ++ outs) /\ length outs = length l /\
+      forall j, (forall i, (i < j)%nat -> nth i l false = false) ->
+                nth j outs None = (if nth j l false then Some (http_resp_of E clk) else None).
+Proof. exact http_stream_segmentation_any. Qed.
+
+(* the responder itself, for every list of segments (unchanged) *)
+Theorem C11_http_outs_segmentation :
   forall E clk, smack_ok (e_http_tbl E) = true -> http_tbl_ok (e_http_tbl E) = true ->
   forall segs, bytes_ok (concat segs) = true ->
     exists l outs,
@@ -35,15 +109,35 @@ Theorem C11_http_stream_segmentation :
                 nth j outs None = (if nth j l false then Some (http_resp_of E clk) else None).
 Proof. exact http_stream_segmentation. Qed.
 
-(* ---- known finding ---- if the first segment ends inside the signature the request is lost
-   (computed on the current tables). *)
-Theorem C11_refuted_short_first_segment :
+(* ---- replay of the former finding ---- "GET / HTTP/1.0\n\n" in one segment, cut after "GE",
+   and one byte per segment: answered alike, with the same single payload, by the segment that
+   completes the request (computed on the current tables). *)
+Theorem C11_short_first_segment_answered :
   answered (tcp_stream the_env w11_clk w11_ci tcb_new [w11_stream]) = true /\
-  answered (tcp_stream the_env w11_clk w11_ci tcb_new [firstn 2 w11_stream; skipn 2 w11_stream]) = false /\
-  concat [firstn 2 w11_stream; skipn 2 w11_stream] = w11_stream.
-Proof. exact refuted_short_first_segment. Qed.
+  answered (tcp_stream the_env w11_clk w11_ci tcb_new [firstn 2 w11_stream; skipn 2 w11_stream]) = true /\
+  concat [firstn 2 w11_stream; skipn 2 w11_stream] = w11_stream /\
+  payloads (tcp_stream the_env w11_clk w11_ci tcb_new [firstn 2 w11_stream; skipn 2 w11_stream]) =
+  payloads (tcp_stream the_env w11_clk w11_ci tcb_new [w11_stream]) /\
+  payloads (tcp_stream the_env w11_clk w11_ci tcb_new (singletons w11_stream)) =
+  payloads (tcp_stream the_env w11_clk w11_ci tcb_new [w11_stream]) /\
+  length (payloads (tcp_stream the_env w11_clk w11_ci tcb_new [w11_stream])) = 1%nat /\
+  (exists outs, tcp_stream the_env w11_clk w11_ci tcb_new (singletons w11_stream) = Ok outs /\
+                firstn 15 outs = repeat None 15 /\ nth 15 outs None <> None).
+Proof. exact short_first_segment_answered. Qed.
 
+Theorem C11_nonvacuous :
+  bytes_ok w11_stream = true /\ tcp_first_id the_env w11_stream = Some PROTO_HTTP /\
+  tcp_first_id the_env (firstn 2 w11_stream) = None.
+Proof. exact w11_identified. Qed.
+
+Print Assumptions C11_current_table.
+Print Assumptions C11_stream_join.
+Print Assumptions C11_identified_in_a_segment.
 Print Assumptions C11_rpc_stream.
+Print Assumptions C11_rpc_stream_first.
 Print Assumptions C11_http_stream.
+Print Assumptions C11_http_stream_first.
 Print Assumptions C11_http_stream_segmentation.
-Print Assumptions C11_refuted_short_first_segment.
+Print Assumptions C11_http_outs_segmentation.
+Print Assumptions C11_short_first_segment_answered.
+Print Assumptions C11_nonvacuous.
